@@ -8,23 +8,23 @@ func c19Reviewed() {
 	reviewed(jc+"Transform", "new<[]byte>#0[new<int>#1]", "loop condition `index < jsonDataLength` (jsonDataLength = len(jsonData), assigned once) guards the read in the same iteration", `(new<int>#1 < new<int>#0)=true`)
 	reviewed(jc+"Transform$4", "up:new<[]byte>#0[up:new<int>#1]", "nextChar reads jsonData[index] only inside `if index < jsonDataLength`", `(up:new<int>#1 < up:new<int>#0)=true`)
 	reviewed(jc+"Transform$10", "up:new<[]byte>#0[up:new<int>#1]", "parseQuotedString reads jsonData[index] only inside `if index < jsonDataLength`", `(up:new<int>#1 < up:new<int>#0)=true`)
-	reviewed(jc+"Transform$7", "up:new<[]byte>#0[up:new<int>#1:up:new<int>#1]", "getUEscape slices [start:index] only when the four nextChar calls reported no error, i.e. index advanced 4 times within bounds (on EOF globalError is set and the function returns before slicing)", `(up:new<error>#0 != nil)=false`)
+	reviewed(jc+"Transform$7", "up:new<[]byte>#0[up:new<int>#1:up:new<int>#1]", "getUEscape slices [start:index] only when the four nextChar calls reported no error, i.e. index advanced 4 times within bounds (on EOF globalError is set and the function returns before slicing)", `(up:new<error>#0 == nil)=true`)
 	reviewed(jc+"Transform$9", "global:internal/jsoncanonicalizer.asciiEscapes[ι]", "i ranges over binaryEscapes, which has the same length (7) as asciiEscapes — pinned by C05.T1", `(ι < len(global:internal/jsoncanonicalizer.binaryEscapes))=true`)
 	reviewed(jc+"Transform$10", "global:internal/jsoncanonicalizer.binaryEscapes[ι]", "i ranges over asciiEscapes, which has the same length (7) as binaryEscapes — pinned by C05.T1", `(ι < len(global:internal/jsoncanonicalizer.asciiEscapes))=true`)
 	// NumberToJSON: indices derive from the documented output format of strconv.FormatFloat
 	nf := jc + "NumberToJSON"
-	reviewed(nf, `phi(strconv.FormatFloat(phi($0|-$0),103,17,64)|strconv.FormatFloat(phi($0|-$0),phi(101|102),-1,64))[(strings.IndexByte(strconv.FormatFloat(phi($0|-$0),phi(101|102),-1,64),101) + 2)]`, "exponent form is d.ddde±dd: at least two characters follow 'e' (FormatFloat prints a sign and >= 2 exponent digits); gform replaces es6Formatted only when it has the same length", `(strings.IndexByte(strconv.FormatFloat(phi($0|-$0),phi(101|102),-1,64),101) > 0)=true`)
-	reviewed(nf, `phi(strconv.FormatFloat(phi($0|-$0),103,17,64)|strconv.FormatFloat(phi($0|-$0),phi(101|102),-1,64))[:(strings.IndexByte(strconv.FormatFloat(phi($0|-$0),phi(101|102),-1,64),101) + 2)]`, "same: exponent+2 < len", `(strings.IndexByte(strconv.FormatFloat(phi($0|-$0),phi(101|102),-1,64),101) > 0)=true`)
-	reviewed(nf, `phi(strconv.FormatFloat(phi($0|-$0),103,17,64)|strconv.FormatFloat(phi($0|-$0),phi(101|102),-1,64))[(strings.IndexByte(strconv.FormatFloat(phi($0|-$0),phi(101|102),-1,64),101) + 3):]`, "same: exponent+3 <= len because two exponent digits are always printed", `(strings.IndexByte(strconv.FormatFloat(phi($0|-$0),phi(101|102),-1,64),101) > 0)=true`)
-	reviewed(nf, `strconv.FormatFloat(phi($0|-$0),phi(101|102),-1,64)[ι]`, "i starts at len >= 12 and decreases while the digit is '0'; the leading digit of an integer >= 1e11 is not '0', so i-1 >= 0", `(len(strconv.FormatFloat(phi($0|-$0),phi(101|102),-1,64)) >= 12)=true`)
-	reviewed(nf, `strconv.FormatFloat(phi($0|-$0),102,0,64)[ι]`, "fix has the same number of integer digits as es6Formatted (both 'f' formats of the same integer-valued double), and i < len(es6Formatted) here", `(len(strconv.FormatFloat(phi($0|-$0),phi(101|102),-1,64)) >= 12)=true`, `(ι != len(strconv.FormatFloat(phi($0|-$0),phi(101|102),-1,64)))=true`)
-	reviewed(nf, `strconv.FormatFloat(phi($0|-$0),102,0,64)[:ι]`, "i-1 >= 0 and <= len(fix), see above", `(len(strconv.FormatFloat(phi($0|-$0),phi(101|102),-1,64)) >= 12)=true`, `(ι != len(strconv.FormatFloat(phi($0|-$0),phi(101|102),-1,64)))=true`)
-	reviewed(nf, `strconv.FormatFloat(phi($0|-$0),phi(101|102),-1,64)[ι:]`, "i <= len(es6Formatted)", `(len(strconv.FormatFloat(phi($0|-$0),phi(101|102),-1,64)) >= 12)=true`)
+	reviewed(nf, `phi(strconv.FormatFloat(phi($0|-$0),103,17,64)|strconv.FormatFloat(phi($0|-$0),phi(101|102),-1,64))[(strings.IndexByte(strconv.FormatFloat(phi($0|-$0),phi(101|102),-1,64),101) + 2)]`, "exponent form is d.ddde±dd: at least two characters follow 'e' (FormatFloat prints a sign and >= 2 exponent digits); gform replaces es6Formatted only when it has the same length", `(0 < strings.IndexByte(strconv.FormatFloat(phi($0|-$0),phi(101|102),-1,64),101))=true`)
+	reviewed(nf, `phi(strconv.FormatFloat(phi($0|-$0),103,17,64)|strconv.FormatFloat(phi($0|-$0),phi(101|102),-1,64))[:(strings.IndexByte(strconv.FormatFloat(phi($0|-$0),phi(101|102),-1,64),101) + 2)]`, "same: exponent+2 < len", `(0 < strings.IndexByte(strconv.FormatFloat(phi($0|-$0),phi(101|102),-1,64),101))=true`)
+	reviewed(nf, `phi(strconv.FormatFloat(phi($0|-$0),103,17,64)|strconv.FormatFloat(phi($0|-$0),phi(101|102),-1,64))[(strings.IndexByte(strconv.FormatFloat(phi($0|-$0),phi(101|102),-1,64),101) + 3):]`, "same: exponent+3 <= len because two exponent digits are always printed", `(0 < strings.IndexByte(strconv.FormatFloat(phi($0|-$0),phi(101|102),-1,64),101))=true`)
+	reviewed(nf, `strconv.FormatFloat(phi($0|-$0),phi(101|102),-1,64)[ι]`, "i starts at len >= 12 and decreases while the digit is '0'; the leading digit of an integer >= 1e11 is not '0', so i-1 >= 0", `(12 <= len(strconv.FormatFloat(phi($0|-$0),phi(101|102),-1,64)))=true`)
+	reviewed(nf, `strconv.FormatFloat(phi($0|-$0),102,0,64)[ι]`, "fix has the same number of integer digits as es6Formatted (both 'f' formats of the same integer-valued double), and i < len(es6Formatted) here", `(12 <= len(strconv.FormatFloat(phi($0|-$0),phi(101|102),-1,64)))=true`, `(len(strconv.FormatFloat(phi($0|-$0),phi(101|102),-1,64)) != ι)=true`)
+	reviewed(nf, `strconv.FormatFloat(phi($0|-$0),102,0,64)[:ι]`, "i-1 >= 0 and <= len(fix), see above", `(12 <= len(strconv.FormatFloat(phi($0|-$0),phi(101|102),-1,64)))=true`, `(len(strconv.FormatFloat(phi($0|-$0),phi(101|102),-1,64)) != ι)=true`)
+	reviewed(nf, `strconv.FormatFloat(phi($0|-$0),phi(101|102),-1,64)[ι:]`, "i <= len(es6Formatted)", `(12 <= len(strconv.FormatFloat(phi($0|-$0),phi(101|102),-1,64)))=true`)
 	// ParseDID
 	pd := "(*versions/1_0/operationparser.Parser).ParseDID"
 	reviewed(pd, `$2[0:strings.LastIndex($2,":")]`, "this branch is taken only when the DID with the namespace prefix removed still contains ':' — removal cannot introduce one, so the DID contains ':' and LastIndex >= 0", `contains(strings.ReplaceAll($2,($1 + ":"),""),":")=true`)
 	// sortedKeys
 	reviewed("patch.sortedKeys", "makeslice<[]string>[ι]", "keys has len(m) elements and i counts the iterations of `range m`, of which there are exactly len(m)", `next(range($0))#0=true`)
 	// applier: SuffixData of a parsed create operation
-	reviewed("(*versions/1_0/operationapplier.Applier).applyCreateOperation", "deref invoke<versions/1_0/operationapplier.OperationParser>.ParseCreateOperation[$0.OperationParser]($1.OperationRequest,true)#0.SuffixData", "ParseCreateOperation stores schema.SuffixData in the model (C03.P1 model.SuffixData) and succeeds, in batch mode too, only across ValidateSuffixData(schema.SuffixData), which rejects nil (C03.P1 ValidateSuffixData|batch=true, C07.G1 ValidateSuffixData:nil-rejected)", `(invoke<versions/1_0/operationapplier.OperationParser>.ParseCreateOperation[$0.OperationParser]($1.OperationRequest,true)#1 != nil)=false`)
+	reviewed("(*versions/1_0/operationapplier.Applier).applyCreateOperation", "deref invoke<versions/1_0/operationapplier.OperationParser>.ParseCreateOperation[$0.OperationParser]($1.OperationRequest,true)#0.SuffixData", "ParseCreateOperation stores schema.SuffixData in the model (C03.P1 model.SuffixData) and succeeds, in batch mode too, only across ValidateSuffixData(schema.SuffixData), which rejects nil (C03.P1 ValidateSuffixData|batch=true, C07.G1 ValidateSuffixData:nil-rejected)", `(invoke<versions/1_0/operationapplier.OperationParser>.ParseCreateOperation[$0.OperationParser]($1.OperationRequest,true)#1 == nil)=true`)
 }
